@@ -156,7 +156,7 @@ func (c *Ctx) earlyExits(l *rangeLoop) []loopExit {
 
 // reviewed search loops (function -> type of the ranged value -> reason): the early exit is the point of the loop.
 var a2SearchLoops = map[string]map[string]string{
-	"(*in_toto.Envelope).GetSignatureForKeyID":  {"[]in_toto.Signature": "search: returns the first signature with the requested key id"},
+	"(*in_toto.Envelope).GetSignatureForKeyID":  {"[]in_toto.Signature": "search: returns the first signature with the requested key id", "[]ssl/dsse.Signature": "search: returns the first signature with the requested key id"},
 	"(*in_toto.Metablock).GetSignatureForKeyID": {"[]in_toto.Signature": "search: returns the first signature with the requested key id"},
 	"(in_toto.Step).CheckCertConstraints":       {"[]in_toto.CertificateConstraint": "existential test: succeeds at the first constraint that matches (R-C07-5 decides the exits)"},
 	"in_toto.LoadLinksForLayout":                {"[]in_toto.Signature": "search: the first signature whose key id has the file name's short id as prefix names the link"},
